@@ -113,7 +113,15 @@ def oracle(scn, obs, ref, schedule):
         interrupted = any(first_idx[id(m)] < j for j in inter_idx) and len(all_idx[id(m)]) > 1 or any(
             first_idx[id(m)] < j < next((x for x in msg_positions if x > first_idx[id(m)]), len(tl)) for j in inter_idx
         )
-        if value is None and interrupted:
+        # was the engine INSIDE the command (awaiting its coroutine) when the interruption took effect, or between two
+        # messages (the command had completed and its response was already on the response stack)?
+        i0 = first_idx[id(m)]
+        nx = next((x for x in msg_positions if x > i0), len(tl))
+        inside = [tl[j][4] if len(tl[j]) > 4 else None for j in inter_idx if i0 < j < nx]
+        between = bool(inside) and all(a in (None, "", "sleep", "running") for a in inside)
+        if value is None and interrupted and between:
+            out.append((f"completed-response-lost:{m.command}", f"yield {k} ({m.command}) had completed (response {_short(want)} ready) when the interruption took effect between two messages; after the rewind the plan received None"))
+        elif value is None and interrupted:
             out.append((f"response-lost-after-rewind:{m.command}", f"yield {k} ({m.command}) was in flight when the plan was interrupted; after the rewind it received None instead of {_short(want)}"))
         else:
             out.append((f"wrong-response:{m.command}", f"yield {k} ({m.command}) received {_short(value)}, expected {how} {_short(want)}"))
